@@ -75,6 +75,16 @@ func treesOf(op string) []string {
 	return []string{f[1]}
 }
 
+// cursor steps are observed through the cursor itself: where it stands after the call
+func cursorOf(op string) string {
+	f := strings.Fields(op)
+	switch f[0] {
+	case "cmin", "cmax", "cceil", "cfwd", "cbwd":
+		return f[1]
+	}
+	return ""
+}
+
 func observe(w *runner.World, trees []string) string {
 	var sb strings.Builder
 	for _, t := range trees {
@@ -160,7 +170,15 @@ func faultsMain(args []string) int {
 				counts[k] = v
 			}
 			w.ResetCounts()
-			normalAfter := observe(w, trees)
+			cur := cursorOf(op)
+			where := func(w *runner.World) string {
+				if cur == "" {
+					return ""
+				}
+				r := w.Exec("cget " + cur)
+				return " cursor:" + r.Outcome + " " + r.Payload
+			}
+			normalAfter := observe(w, trees) + where(w)
 			normalStr := normal.Outcome + " " + normal.Payload
 			for _, kind := range []string{"load", "cmp", "marshal"} {
 				for p := 0; p < counts[kind]; p++ {
@@ -179,7 +197,7 @@ func faultsMain(args []string) int {
 							rec.Persisted = persistedCheck(w, strings.Fields(op)[1])
 						}
 						retry := w.Exec(op)
-						retryAfter := observe(w, trees)
+						retryAfter := observe(w, trees) + where(w)
 						rs := retry.Outcome + " " + retry.Payload
 						rec.RetrySame = rs == normalStr && retryAfter == normalAfter
 						if !rec.RetrySame {
